@@ -262,6 +262,8 @@ def run_scenario(sc, scratch, keep_objects=False):
             p = fpath(st['file'])
             if st['kind'] == 'junk':
                 open(p, 'wb').write(b'not an hdf5 file ' + bytes(st.get('n', 3)))
+            elif st['kind'] == 'empty':
+                open(p, 'wb').close()          # a zero-length file is an existing file like any other
             elif st['kind'] == 'h5':
                 with h5py.File(p, 'w') as f:
                     g = f.create_group('stuff'); g.attrs['a'] = 1
@@ -291,14 +293,19 @@ def run_scenario(sc, scratch, keep_objects=False):
                 kw['emdpath'] = st['emdpath']
             probe_before = probe(p, st['probe']) if st.get('probe') else None
             fstate = None
+            # tree='noroot' is the documented (deprecated) spelling of tree=None: every fourth such save uses it
+            import zlib
+            pytree = st['tree']
+            if pytree is None and zlib.crc32(repr(sorted((k, repr(v)) for k, v in st.items())).encode()) % 4 == 0:
+                pytree = 'noroot'
             try:
                 with core.quiet():
                     if st.get('fault') is not None:
                         from harness import faults
                         with faults.inject(st['fault']) as fstate:
-                            emdfile.save(p, target, mode=st['mode'], tree=st['tree'], **kw)
+                            emdfile.save(p, target, mode=st['mode'], tree=pytree, **kw)
                     else:
-                        emdfile.save(p, target, mode=st['mode'], tree=st['tree'], **kw)
+                        emdfile.save(p, target, mode=st['mode'], tree=pytree, **kw)
             except BaseException as e:
                 raised, exc = True, type(e).__name__ + ': ' + str(e)[:120]
             o = {'raised': raised, 'exc': exc, 'slot': abs_slot(p), 'sha_before': before_sha, 'sha_after': sha(p)}
@@ -485,7 +492,10 @@ def emit(cases, results, shard=120):
         em = Em()
         terms, idx = [], []
         for i in range(k, min(k + shard, len(cases))):
-            terms.append(em.case(cases[i], results[i]))
+            r = results[i]
+            if isinstance(r, list) and r and isinstance(r[0], dict) and 'harness_error' in r[0]:
+                continue          # reported by core as a broken correspondence
+            terms.append(em.case(cases[i], r))
             idx.append(i)
         shards.append((em.I.defs, terms, idx))
     return shards
@@ -496,7 +506,9 @@ CASETY = 'tcase'
 CHECKFN = 'check'
 
 # ------------------------------------------------------------------ generators
-NAMEPOOL = ['a', 'b', 'c', 'd', 'e', 'ab', 'a b', 'é', 'data', 'dim0', 'x', 'node', 'metadata', 'A', '_tmp_a', 'n1', 'n2', 'n3', 'k', 'q']
+# includes names that are valid Unicode but not NFC-normalised (a combining mark, the Angstrom and Ohm signs): names are stored as given
+NAMEPOOL = ['a', 'b', 'c', 'd', 'e', 'ab', 'a b', 'é', 'data', 'dim0', 'x', 'node', 'metadata', 'A', '_tmp_a', 'n1', 'n2', 'n3', 'k', 'q',
+            'e\u0301', 'd_\u212b', '\u2126m']
 TOK = [100]
 
 
